@@ -72,7 +72,7 @@ def handle : List String → String
           entity := fun n => ((ents.find? (fun e => e.1 == n)).map (·.2)).join,
           cp1252 := fun n => (BS.Gen.cp1252Table.find? (fun e => e.1 == n)).map (·.2),
           origDecode := fun _ => none,
-          maxDigits := BS.Gen.intMaxStrDigits }
+          maxDigits := BS.Gen.intMaxStrDigitsC04 }
       let r := if which == "adaptold" then toEventsOld cfg sevs else toEvents cfg sevs
       (showDocs (build bcfg r.1) r.2).1
   | _ => "bad-op"
